@@ -12,7 +12,7 @@ function makeEnv(variant = 0) {
   const comp = (name) => names.reg({ __component: name }, name);
   const bound = {
     Comp: comp('Comp'), B: comp('B'),
-    ns: { Comp: comp('ns.Comp'), b: { c: comp('ns.b.c') } },
+    ns: { Comp: comp('ns.Comp'), b: { c: comp('ns.b.c') }, div: comp('ns.div'), input: comp('ns.input'), fooPanel: comp('ns.fooPanel') },
     h1: fn('h1'), h2: fn('h2'), h3: fn('h3'), h4: fn('h4'),
     c1: 'c1cls', st1: { fontSize: '1px' },
     o: { p: 'op' + variant, q: { r: 'oqr' } },
@@ -54,6 +54,7 @@ const ATTRS = {
   nul:      { src: 'nl={null}', m: P('nl', () => null), fk: 'const' },
   strexpr:  { src: 'se={"s"}', m: P('se', () => 's'), fk: 'const' },
   jsxval:   { src: 'jv={<b/>}', m: P('jv', () => ({ __expectVNode: { type: 'tag:b', props: null, children: null } })), fk: 'dynamic' },
+  jsxBare:  { src: 'jb=<b/>', m: P('jb', () => ({ __expectVNode: { type: 'tag:b', props: null, children: null } })), fk: 'dynamic' },
   xlink:    { src: 'xlink:href="#a"', m: P('xlink:href', () => '#a'), fk: 'static' },
   xlinkD:   { src: 'xlink:title={x}', m: P('xlink:title', (e) => e.bound.x), fk: 'dynamic' },
   data:     { src: 'data-x="1"', m: P('data-x', () => '1'), fk: 'static' },
@@ -96,6 +97,10 @@ const HOSTS = {
   Unbound:   { open: 'Unbound', kind: 'component', type: () => 'resolved:Unbound' },
   member:    { open: 'ns.Comp', kind: 'component', type: () => 'comp:ns.Comp' },
   member3:   { open: 'ns.b.c', kind: 'component', type: () => 'comp:ns.b.c' },
+  // a member tag is a component whatever its last segment is called
+  memberNative: { open: 'ns.div', kind: 'component', type: () => 'comp:ns.div' },
+  memberFoo:    { open: 'ns.fooPanel', kind: 'component', type: () => 'comp:ns.fooPanel' },
+  memberInput:  { open: 'ns.input', kind: 'component', type: () => 'comp:ns.input' },
   frag:      { open: '', kind: 'element', fragment: true, type: () => 'Fragment' },
   Fragment:  { open: 'Fragment', kind: 'element', type: () => 'Fragment' },
   FragmentI: { open: 'Fragment', kind: 'element', type: () => 'Fragment', imports: "import { Fragment } from 'vue';" },
